@@ -898,7 +898,9 @@ impl ASN1Type {
             ASN1Type::ElsewhereDeclaredType(DeclarationElsewhere { identifier, .. }) => {
                 Cow::Borrowed(identifier)
             }
-            ASN1Type::ChoiceSelectionType(_) => todo!(),
+            ASN1Type::ChoiceSelectionType(c) => {
+                Cow::Owned(format!("{} < {}", c.selected_option, c.choice_name))
+            }
             ASN1Type::ObjectIdentifier(_) => Cow::Borrowed(OBJECT_IDENTIFIER),
             ASN1Type::ObjectClassField(ifr) => Cow::Owned(format!(
                 "{INTERNAL_IO_FIELD_REF_TYPE_NAME_PREFIX}{}${}",
